@@ -11,6 +11,7 @@ The right-hand sides of the packet theorems (§6) are built from Spec definition
 All statements are for every field value within its width (no sampling, no size bound).
 -/
 import FlexModel.Wire.PacketLemmas
+import FlexModel.Wire.Rx
 
 namespace Props.C02
 open FlexModel.Wire FlexModel.Wire.Spec Generated.WireEnums
@@ -915,5 +916,206 @@ example : BasicHeader.WF ⟨1, 1, 0, ⟨26, 1⟩, 0⟩ ∧ (⟨1, 1, 0, ⟨26, 1
 /-- the LT octet demanded for the default lifetime of 60 s exists (octet 0x19 = 6 × 10 s) -/
 example : LTSpec.IsLifetimeOctet (LTSpec.lifetimeMs none 60) (LT.setMillis true 60000).encode ∧ (LT.setMillis true 60000).encode = 26 :=
   ⟨LTLemmas.written_octet_meets_spec_partial 60000 (by decide), by decide⟩
+
+/-! ## 11. PL counts the payload octets actually EMITTED — also for requests that enter at the BTP layer with ANY declared
+length (`BTPDataRequest.length`: dataclass default 0, stale after `from_dict`, …) -/
+
+/-- PL octets (8, 9 of the packet) and total length of a packet assembled by `cat3` -/
+private theorem cat3_pl (v : Variant) (mib : Mib) (hm : mib.WF) (life : Option Nat) (rhl : Nat) (hrl : rhl < 256)
+    (c : CommonHeader) (wc : c.WF) (x : Except Err Bytes) (z : Bytes) (hx : x = .ok z) (t bs : Bytes)
+    (h : cat3 (srcBasic v mib life rhl).encode c.encode x t = .ok bs) :
+    bs.getD 8 0 * 256 + bs.getD 9 0 = c.pl ∧ bs.length = 12 + z.length + t.length := by
+  have wb := srcBasic_wf v mib hm life rhl hrl
+  have e1 : (srcBasic v mib life rhl).encode = .ok (toBytesBE 4 (srcBasic v mib life rhl).encodeInt) :=
+    toBytes?_ok (BasicHeader.encodeInt_lt _ wb)
+  have e2 : c.encode = .ok (toBytesBE 8 c.encodeInt) := toBytes?_ok (CommonHeader.encodeInt_lt _ wc)
+  rw [cat3_ok e1 e2 hx] at h
+  injection h with h
+  subst h
+  have o2 := (CommonHeader.octets_at _ wc).2.2.1
+  constructor
+  · rw [← o2]
+    simp only [List.getD_eq_getElem?_getD, List.append_assoc]
+    rw [List.getElem?_append_right (by simp [toBytesBE_length]), List.getElem?_append_left (by simp [toBytesBE_length]),
+      List.getElem?_append_right (by simp [toBytesBE_length]), List.getElem?_append_left (by simp [toBytesBE_length])]
+    simp [toBytesBE_length]
+  · simp [toBytesBE_length]; omega
+
+/-- **the payload-length field equals the number of payload octets emitted**, read off the octets handed to the link layer:
+octets 8..9 of the packet (PL of the common header) = the number of octets behind the GeoNetworking headers (4 basic +
+8 common + 28 SHB / 44 GBC, GAC / 48 GUC extended header), for every request-built packet -/
+theorem pl_counts_emitted_octets (v : Variant) (mib : Mib) (hm : mib.WF) (r : Request) (hr : r.WF) (sn : Nat) (hsn : sn < 65536)
+    (ego : LongPV) (he : ego.WF) (de : ShortPV) (hde : de.WF) :
+    (∀ bs, shbPacket v mib r ego = .ok bs → bs.getD 8 0 * 256 + bs.getD 9 0 = r.data.length ∧ bs.length = 40 + r.data.length) ∧
+    (∀ bs, gbcPacket v mib r sn ego = .ok bs → bs.getD 8 0 * 256 + bs.getD 9 0 = r.data.length ∧ bs.length = 56 + r.data.length) ∧
+    (∀ bs, gucPacket v mib r sn ego de = .ok bs → bs.getD 8 0 * 256 + bs.getD 9 0 = r.data.length ∧ bs.length = 60 + r.data.length) := by
+  have hh := srcHopLimit_lt mib hm r hr
+  have hr' := req_hop_wf mib hm r hr
+  have h5 : r.length = r.data.length := hr.2.2.2.2.1
+  obtain ⟨a1, a2, a3, a4, a5⟩ := hr.2.2.2.2.2.2.1
+  refine ⟨?_, ?_, ?_⟩
+  · intro bs h
+    obtain ⟨k1, k2⟩ := cat3_pl v mib hm _ 1 (by omega) _ (commonOfRequest_wf r hr mib hm) _ _ (LongPV.encode_ok ego he) _ bs h
+    rw [k1, k2]
+    simp [commonOfRequest, h5, toBytesBE_length]; omega
+  · intro bs h
+    have we : GBCExt.WF (⟨sn, 0, ego, r.area.lat, r.area.lon, r.area.a, r.area.b, r.area.angle, 0⟩ : GBCExt) :=
+      ⟨hsn, by simp, he, a1, a2, a3, a4, a5, by simp⟩
+    obtain ⟨k1, k2⟩ := cat3_pl v mib hm _ _ hh _ (commonOfRequest_wf _ hr' mib hm) _ _ (GBCExt.encode_eq _ we) _ bs h
+    rw [k1, k2]
+    simp [commonOfRequest, h5, GBCExt.octets, toBytesBE_length]
+  · intro bs h
+    have we : GUCExt.WF (⟨sn, 0, ego, de⟩ : GUCExt) := ⟨hsn, by simp, he, hde⟩
+    obtain ⟨k1, k2⟩ := cat3_pl v mib hm _ _ hh _ (commonOfRequest_wf _ hr' mib hm) _ _ (GUCExt.encode_eq _ we) _ bs h
+    rw [k1, k2]
+    simp [commonOfRequest, h5, GUCExt.octets, toBytesBE_length]
+
+/-- whatever a BTP-Data.request DECLARES as its `length` (no hypothesis on `q` at all): the GN-DATA.request
+`btp_data_request` builds has `length = len(data)` and `data` = 4 BTP header octets + the payload.  The clause
+`length = data.length` of `Request.WF` is thereby DERIVED for every request that enters at the BTP layer (at the GN service
+access point itself it remains the caller's contract: ASSUMPTIONS) -/
+theorem btp_request_length (q : BtpRequest) (r : Request) (h : btpGnRequest true q = .ok r) :
+    r.length = r.data.length ∧ r.data.length = 4 + q.data.length ∧ r.nh = q.btpType := by
+  unfold btpGnRequest at h
+  cases hh : q.header with
+  | error e => simp [hh, bind, Except.bind] at h
+  | ok hd =>
+    cases he : hd.encode with
+    | error e => simp [hh, btpWrap, he, bind, Except.bind] at h
+    | ok hb =>
+      have hl : hb.length = 4 := by
+        unfold BTPHeader.encode toBytes? at he
+        split at he
+        · injection he with he; rw [← he, toBytesBE_length]
+        · cases he
+      simp only [hh, btpWrap, he, bind, Except.bind, pure, Except.pure, if_true] at h
+      injection h with h
+      subst h
+      simp [hl]
+
+/-- a well-formed BTP-Data.request (BTP-A or BTP-B, 16-bit ports; its declared length unconstrained): the GN-DATA.request is
+well formed and its data are the standard's BTP header octets followed by the payload, untouched -/
+theorem btp_request_conforms (q : BtpRequest) (hq : q.WF) :
+    ∃ r, btpGnRequest true q = .ok r ∧ r.WF ∧ r.ht = q.ht ∧ r.hst = q.hst ∧ r.tc = q.tc ∧
+      r.data = (if q.btpType = 2 then octets btpB [(q.destinationPort : Int), (q.destinationPortInfo : Int)]
+                else octets btpA [(q.destinationPort : Int), (q.sourcePort : Int)]) ++ q.data := by
+  obtain ⟨ht, h1, h2, h3, h4, h5, h6, h7, h8, h9⟩ := hq
+  rcases ht with ht | ht
+  · have wf : BTPHeader.WF ⟨q.destinationPort, q.sourcePort⟩ := ⟨h2, h1⟩
+    have e := BTPHeader.encode_eq _ wf
+    have o := BTPHeader.octets_eq btpA _ _ rfl _ wf
+    simp only [BTPHeader.fields] at o
+    refine ⟨_, by simp [btpGnRequest, BtpRequest.header, ht, CommonNH_BTP_A, CommonNH_BTP_B, btpWrap, e, bind, Except.bind, pure, Except.pure]; rfl, ?_, rfl, rfl, rfl, ?_⟩
+    · refine ⟨by simp [Spec.commonNH], h4, h5, h6, by simp [toBytesBE_length], ?_, h8, h9⟩
+      simp [toBytesBE_length]; omega
+    · simp [ht, o]
+  · have wf : BTPHeader.WF ⟨q.destinationPort, q.destinationPortInfo⟩ := ⟨h2, h3⟩
+    have e := BTPHeader.encode_eq _ wf
+    have o := BTPHeader.octets_eq btpB _ _ rfl _ wf
+    simp only [BTPHeader.fields] at o
+    refine ⟨_, by simp [btpGnRequest, BtpRequest.header, ht, CommonNH_BTP_B, btpWrap, e, bind, Except.bind, pure, Except.pure]; rfl, ?_, rfl, rfl, rfl, ?_⟩
+    · refine ⟨by simp [Spec.commonNH], h4, h5, h6, by simp [toBytesBE_length], ?_, h8, h9⟩
+      simp [toBytesBE_length]; omega
+    · simp [ht, o]
+
+/-- regenerated structural fact (ast pass over btp/router.py on this run): every `GNDataRequest(...)` of `btp_data_request`
+is built with `length = len(<its data= expression>)`.  A source change that computes the length any other way (e.g. from
+`request.length`) re-opens this obligation and with it `btp_pl_is_emitted_payload` -/
+theorem btp_length_fact : codeBtpLengthFromData = true := by decide
+
+/-- **PL for requests entering at the BTP layer, ANY declared length**: for the code as it is (`codeBtpLengthFromData`), a
+well-formed BTP-Data.request yields SHB / GBC, GAC / GUC packets whose PL field is 4 + the number of payload octets of the
+request = the number of octets emitted behind the GeoNetworking headers; `q.declaredLength` occurs nowhere -/
+theorem btp_pl_is_emitted_payload (q : BtpRequest) (hq : q.WF) (v : Variant) (mib : Mib) (hm : mib.WF) (sn : Nat) (hsn : sn < 65536)
+    (ego : LongPV) (he : ego.WF) (de : ShortPV) (hde : de.WF) :
+    ∃ r, btpGnRequest codeBtpLengthFromData q = .ok r ∧
+      (∀ bs, shbPacket v mib r ego = .ok bs →
+        bs.getD 8 0 * 256 + bs.getD 9 0 = 4 + q.data.length ∧ bs.length = 40 + (4 + q.data.length)) ∧
+      (∀ bs, gbcPacket v mib r sn ego = .ok bs →
+        bs.getD 8 0 * 256 + bs.getD 9 0 = 4 + q.data.length ∧ bs.length = 56 + (4 + q.data.length)) ∧
+      (∀ bs, gucPacket v mib r sn ego de = .ok bs →
+        bs.getD 8 0 * 256 + bs.getD 9 0 = 4 + q.data.length ∧ bs.length = 60 + (4 + q.data.length)) := by
+  rw [btp_length_fact]
+  obtain ⟨r, h, wr, -⟩ := btp_request_conforms q hq
+  obtain ⟨-, l2, -⟩ := btp_request_length q r h
+  obtain ⟨p1, p2, p3⟩ := pl_counts_emitted_octets v mib hm r wr sn hsn ego he de hde
+  refine ⟨r, h, fun bs hb => ?_, fun bs hb => ?_, fun bs hb => ?_⟩
+  · rw [← l2]; exact p1 bs hb
+  · rw [← l2]; exact p2 bs hb
+  · rw [← l2]; exact p3 bs hb
+
+/-- non-vacuity: a BTP-B/SHB request with 40 payload octets and `length` left at its default 0, and one with a stale
+declared length 300 for 3 octets, are well formed -/
+example : BtpRequest.WF ⟨2, 0, 2002, 4660, 0, List.replicate 40 7, 5, 0, ⟨false, false, 2⟩, ⟨0, 0, 0, 0, 0⟩, 1, none⟩ ∧
+    BtpRequest.WF ⟨1, 5000, 2003, 0, 300, [1, 2, 3], 4, 0, ⟨false, false, 2⟩, ⟨413870000, 21120000, 100, 100, 0⟩, 5, none⟩ := by
+  simp [BtpRequest.WF, Area.WF, TrafficClass.WF, inS32, Spec.headerTypes, Spec.subTypes]
+
+/-- witness of the OTHER variant: were the GN length computed from the declared length (`len(header) + request.length`), a
+BTP-B/SHB request with 3 payload octets and `length` left at its default 0 would leave with PL = 4 in a packet that carries
+7 payload octets (47 = 40 + 7 octets on the wire) -/
+theorem btp_declared_length_witness :
+    let q : BtpRequest := ⟨2, 0, 2001, 0, 0, [1, 2, 3], 5, 0, ⟨false, false, 2⟩, ⟨0, 0, 0, 0, 0⟩, 1, none⟩
+    let ego : LongPV := ⟨⟨0, 5, 1⟩, 0, 415000000, 21000000, true, 0, 0⟩
+    ∃ r bs, btpGnRequest false q = .ok r ∧ shbPacket ⟨true, false, false⟩ ⟨1, 0, 10, 60, 0⟩ r ego = .ok bs ∧
+      bs.getD 8 0 * 256 + bs.getD 9 0 = 4 ∧ bs.length = 40 + 7 := by
+  refine ⟨_, _, rfl, rfl, ?_, ?_⟩ <;> decide +kernel
+
+/-! ## 12. Several receive threads on one router: the forwarded PDU of a thread does not depend on what the other
+threads are doing (`FlexModel/Wire/Rx.lean`; all schedules = all lists of events) -/
+
+/-- regenerated structural facts (ast pass over geonet/router.py on this run): ONE attribute holds the secured message of the
+packet being received, every binding of it is `threading.local()`, every store of a message into it is followed by
+`try: … finally: <store None>`.  A context object shared by the threads re-opens this obligation and with it the
+`…_any_schedule` theorems -/
+theorem rx_context_facts : codeRxThreadLocal = true := by decide
+
+/-- **non-interference, all schedules**: the PDUs thread `t` hands to the link layer in ANY interleaving with any other
+threads' events are those of its own events run alone -/
+theorem rx_thread_isolation (t : Nat) (evs : List RxEv) (c : RxStore) :
+    (rxRun codeRxThreadLocal c evs).filter (fun o => o.1 = t) = rxRun codeRxThreadLocal c (evs.filter (fun e => e.tid = t)) := by
+  rw [rx_context_facts]; exact rxRun_isolated t evs c c rfl
+
+/-- a thread that receives an UNSECURED packet and forwards it (own events: one `_forward_pdu` call; its slot empty when the
+schedule starts): in ANY schedule — in particular while another thread is inside `process_security_header` — the PDU is
+`basic header ‖ tail` -/
+theorem rx_unsecured_forward_any_schedule (t : Nat) (bh : BasicHeader) (tail : Bytes) (evs : List RxEv) (c : RxStore)
+    (hc : c t = none) (hown : evs.filter (fun e => e.tid = t) = [.forward t bh tail]) :
+    (rxRun codeRxThreadLocal c evs).filter (fun o => o.1 = t) = [(t, (do let b ← bh.encode; return b ++ tail))] := by
+  rw [rx_context_facts, rxRun_isolated t evs c RxStore.empty (by rw [hc]; rfl), hown]
+  simp [rxRun, rxStep, RxStore.empty, forwardPdu]
+
+/-- … for a well-formed (updated) basic header: its four octets followed by the re-assembled `common header ‖ extended
+header ‖ payload` — exactly what `forwardPacket` puts on the wire (`forward_tsb/gbc/guc/ls_*`: `decRhl bh` in front of the
+received octets): the forwarded unsecured packet is the received one with RHL − 1 under EVERY interleaving -/
+theorem forward_pdu_any_schedule (t : Nat) (bh : BasicHeader) (wb : bh.WF) (tail : Bytes) (evs : List RxEv) (c : RxStore)
+    (hc : c t = none) (hown : evs.filter (fun e => e.tid = t) = [.forward t bh tail]) :
+    (rxRun codeRxThreadLocal c evs).filter (fun o => o.1 = t) = [(t, .ok (toBytesBE 4 bh.encodeInt ++ tail))] := by
+  rw [rx_unsecured_forward_any_schedule t bh tail evs c hc hown,
+    show bh.encode = .ok (toBytesBE 4 bh.encodeInt) from toBytes?_ok (BasicHeader.encodeInt_lt _ wb)]
+  rfl
+
+/-- a thread that receives a SECURED packet and forwards it (own events: enter, `_forward_pdu`, leave): in any schedule the
+PDU is the basic header with NH = Secured Packet followed by ITS OWN secured message (`forward_secured_gbc`), and its slot
+is empty again afterwards whatever the schedule -/
+theorem rx_secured_forward_any_schedule (t : Nat) (msg : Bytes) (bh : BasicHeader) (tail : Bytes) (evs : List RxEv) (c : RxStore)
+    (hown : evs.filter (fun e => e.tid = t) = [.enter t msg, .forward t bh tail, .leave t]) :
+    (rxRun codeRxThreadLocal c evs).filter (fun o => o.1 = t) =
+      [(t, (do let b ← ({ bh with nh := BasicNH_SECURED_PACKET } : BasicHeader).encode; return b ++ msg))] := by
+  rw [rx_context_facts, rxRun_isolated t evs c c rfl, hown]
+  simp [rxRun, rxStep, rxSlot, RxStore.set, forwardPdu]
+
+/-- non-vacuity: a schedule in which thread 1 forwards while thread 0 is inside a secured reception meets `hown` -/
+example : ([.enter 0 [3, 129], .forward 1 ⟨1, 1, 0, ⟨26, 1⟩, 4⟩ [32], .leave 0] : List RxEv).filter (fun e => e.tid = 1) =
+    [.forward 1 ⟨1, 1, 0, ⟨26, 1⟩, 4⟩ [32]] := by simp [RxEv.tid]
+
+/-- witness for a context SHARED by the threads (`threadLocal = false`): thread 1 forwards an unsecured packet while
+thread 0 is inside a secured reception — thread 1's PDU leaves with NH = 2 and thread 0's secured message behind the basic
+header; with the thread-local context it is the unsecured re-assembly -/
+theorem rx_shared_context_witness :
+    let bh : BasicHeader := ⟨1, 1, 0, ⟨26, 1⟩, 4⟩
+    let evs : List RxEv := [.enter 0 [3, 129, 0, 7], .forward 1 bh [32, 81, 2], .leave 0]
+    (rxRun false RxStore.empty evs).map (fun o => (o.1, o.2.toOption)) = [(1, some [18, 0, 105, 4, 3, 129, 0, 7])] ∧
+    (rxRun true RxStore.empty evs).map (fun o => (o.1, o.2.toOption)) = [(1, some [17, 0, 105, 4, 32, 81, 2])] := by
+  decide +kernel
 
 end Props.C02
